@@ -1,5 +1,10 @@
-"""C16 schema evolution through the dynamic API: writer tag set/order x reader tag set, Copy/Merge through a partial writer (DESIGN 4 C16)."""
-from vlib import wirefam as wf
+"""C16 schema evolution: (a) dynamic API: writer tag set/order x reader tag set, Copy/Merge through a partial writer;
+(b) generated code: SchemaSem.tla derives version B of a schema from version A by add / remove / rename / reorder edits that keep
+the tags of surviving fields; both versions go through the real generator and compiler, messages written by A's generated
+writer are read by B's generated reader (common fields unchanged, unknown fields ignored, absent fields zero with presence false)
+and merged through B's writer back to A (unknown fields preserved) (DESIGN 4 C16)."""
+from vlib import langfam, wirefam as wf
+from vlib.common import Broken
 
 
 def run(ctx):
@@ -7,17 +12,64 @@ def run(ctx):
     r = wf.gen(ctx, "evolve", 1)
     summary, mism = wf.execute(ctx, r.outfile)
     wf.report(ctx, mism, {"C16"})
+    # (b) generated code of both versions
+    recs = []
+    gstates = 0
+    if ctx.quick():
+        g, rs = langfam.records(ctx, "evolve", simulate=20, depth=4, seed=ctx.seed, max_fields=2, limit=36)
+        recs += rs
+    else:
+        g, rs = langfam.records(ctx, "evolve", max_fields=1)
+        gstates += g.distinct
+        recs += rs
+        for sd in (ctx.seed, ctx.seed + 1):
+            g, rs = langfam.records(ctx, "evolve", simulate=60, depth=5, seed=sd, max_fields=3, limit=150)
+            recs += rs
+    # the same pair can be reached twice in a simulation
+    seen, uniq = set(), []
+    for rec in recs:
+        key = str(rec["pkgs"][0]["files"][0]["tokens"]) + str(rec["evolve"]["pkgs"][0]["files"][0]["tokens"])
+        if key not in seen:
+            seen.add(key)
+            uniq.append(rec)
+    pl = langfam.Pipeline(ctx, "c16")
+    pl.add(uniq)
+    pl.compile_all()
+    pl.go_build(drive=True)
+    dsum = pl.drive()
+    pairs = 0
+    edits = {}
+    for c in pl.cases:
+        rec = c["rec"]
+        if c["exit"] != 0 or c["dep_fail"] or c["build_errors"]:
+            errs = (c["stderr"] or "")[-300:] + "\n".join(sum(c["build_errors"].values(), []))[:600]
+            ctx.violation("version-not-generated", "%s: a schema version was rejected or its code does not compile: %s" % (rec["label"], errs),
+                          {"label": rec["label"]})
+            continue
+        if rec.get("evolve_link"):
+            pairs += 1
+            for e in rec["evolve_link"]["edits"]:
+                edits[e.split()[0]] = edits.get(e.split()[0], 0) + 1
+        for f in c["findings"]:
+            ctx.violation("generated:" + f["sig"], f["detail"], {"label": rec["label"], "finding": f,
+                          "sources": {p["id"] + "/" + x["name"]: langfam.render(x["tokens"], c["id"]) for p in rec["pkgs"] for x in p["files"]}})
+    if pairs == 0 or dsum.get("evolve_pairs", 0) == 0:
+        raise Broken("vacuous: no schema version pair was driven")
     ctx.coverage = {
-        "states": r.distinct, "transitions": r.generated, "traces_validated_against_impl": summary["cases"].get("evolve", 0),
+        "states": r.distinct + gstates, "transitions": r.generated, "traces_validated_against_impl": summary["cases"].get("evolve", 0) + pairs,
+        "generated_code_version_pairs": pairs, "edits_applied": edits, "generated_value_checks": dsum["checks"],
         "samples": wf.samples(r.outfile, 3, keys=("mode", "written", "reader", "enc")),
         "invariants": ["TagIndependence"], "exhaustive": True,
         "explanation": "every message over tags {1,2,3,255,256} (each tag with its own field kind: int, string, list, nested message, "
                        "uint64) in every write order (all permutations of every subset) x every non-empty reader tag set: the "
                        "specification predicts presence and value per reader tag (TagIndependence checked by TLC); the library must "
                        "agree, absent tags read as zero/empty without error, and Copy and Merge through a writer that rewrites only "
-                       "the tags it knows preserve all other fields byte for byte. Generated-code evolution is covered under C05.",
+                       "the tags it knows preserve all other fields byte for byte. Generated code: schema pairs (A, B) with B derived by 1-3 "
+                       "edits (add a field with a fresh tag, remove, rename, reorder) from two base messages covering scalars, strings, "
+                       "bytes, any, enums, structs, nested and imported messages and lists; 4 value assignments per pair written by A's "
+                       "generated writer, read by B's generated reader, merged through B's generated writer and read back by A.",
     }
-    ctx.assumptions = ["generated code of two schema versions is exercised by the C05 check (same accessor map)"]
+    ctx.assumptions = ["edits never reuse the tag of a removed field with another type (the statement's 'keeping tags')"]
 
 
 def replay(ctx, path):
